@@ -283,7 +283,92 @@ def _observe_history(case, std=False):
 # contextlib.AsyncExitStack, which defines what "moved by pop_all" / "registered late" mean during an unwind
 
 
+def _enterreg_cases():
+    """an async / sync context manager whose enter REGISTERS something on the very stack it is being entered on (a
+    sub-resource's release) and then fails or succeeds; also another registration made while the enter is suspended"""
+    for n in (0, 1, 2):
+        for cmkind in ("acm", "scm"):
+            for fails in (True, False):
+                for reg in ("callback", "push", "none"):
+                    for body in (None, BODY_EXC):
+                        yield {"kind": "reentrant", "n": n, "at": -1, "act": "enter-" + reg, "cm": cmkind, "fails": fails,
+                               "body": body, "beh": "F", "entries": {}}
+
+
+def _run_enterreg(case, std):
+    _EXCS.clear()
+    log = []
+    new = contextlib.AsyncExitStack if std else asyncstdlib.ExitStack
+    stack = new()
+
+    def mkexit(i):
+        async def ex(et, ev, tb):
+            log.append(["exit", i, getattr(ev, "eid", None) if ev is not None else None])
+            return False
+        return ex
+
+    def register_sub():
+        reg = case["act"][6:]
+        if reg == "callback":
+            def late(*a):
+                log.append(["late-callback", list(a)])
+            stack.callback(late, 77)
+        elif reg == "push":
+            (stack.push_async_exit if std else stack.push)(mkexit(50))
+
+    class ACMx:
+        async def __aenter__(self):
+            log.append(["enter"])
+            register_sub()
+            if case["fails"]:
+                raise _exc(301)
+            return self
+
+        async def __aexit__(self, et, ev, tb):
+            log.append(["cm-exit", getattr(ev, "eid", None) if ev is not None else None])
+            return False
+
+    class SCMx:
+        def __enter__(self):
+            log.append(["enter"])
+            register_sub()
+            if case["fails"]:
+                raise _exc(301)
+            return self
+
+        def __exit__(self, et, ev, tb):
+            log.append(["cm-exit", getattr(ev, "eid", None) if ev is not None else None])
+            return False
+
+    async def main():
+        for i in range(case["n"]):
+            (stack.push_async_exit if std else stack.push)(mkexit(i))
+        try:
+            async with stack:
+                try:
+                    if case["cm"] == "acm":
+                        await (stack.enter_async_context(ACMx()) if std else stack.enter_context(ACMx()))
+                    else:
+                        r = stack.enter_context(SCMx())
+                        if not std:
+                            await r
+                except (UserExc, UserBaseExc) as exc:
+                    log.append(["enter-raised", exc.eid])
+                if case["body"] is not None:
+                    raise _exc(case["body"])
+        except (UserExc, UserBaseExc) as exc:
+            log.append(["block-raised", exc.eid])
+        log.append(["after-block"])
+        try:
+            await stack.aclose()
+        except (UserExc, UserBaseExc) as exc:
+            log.append(["again-raised", exc.eid])
+    res = _run(main())
+    return {"out": res, "log": log}
+
+
 def _reentrant_cases():
+    yield from _enterreg_cases()
     for n in (1, 2, 3, 4):
         for k in range(n):
             for act in ("popall", "push", "callback"):
@@ -343,6 +428,8 @@ def _run_reentrant(case, std):
 
 
 def observe(case):
+    if case["kind"] == "reentrant" and case["act"].startswith("enter-"):
+        return {"impl": _run_enterreg(case, False), "std": _run_enterreg(case, True)}
     if case["kind"] == "reentrant":
         return {"impl": _run_reentrant(case, False), "std": _run_reentrant(case, True)}
     if case["kind"] == "unwind":
@@ -351,6 +438,8 @@ def observe(case):
 
 
 def model_request(case):
+    if case["kind"] == "reentrant" and case["act"].startswith("enter-"):
+        return None      # a context manager whose enter registers on the stack: decided against contextlib alone
     if case["kind"] == "reentrant":
         # Machines/ExitStackReentrant.lean: both libraries' unwind loops over deques that exits may pop_all / push onto
         return {"m": "exitstackre", "n": case["n"], "at": case["at"], "act": case["act"], "beh": case["beh"], "body": case["body"]}
